@@ -9,6 +9,9 @@ Proof. induction m as [|x r IH]; [reflexivity|]. rewrite !mcount_cons. unfold zl
 Lemma all_none_nil {V} (m : list (Z * V)) : (forall k, zfind k m = None) -> m = [].
 Proof. destruct m as [|[k v] r]; auto. intros H. specialize (H k). unfold zfind in H. simpl in H. rewrite Z.eqb_refl in H. discriminate. Qed.
 
+Lemma zfind_cons {V} k k' (v : V) r : zfind k ((k', v) :: r) = if k =? k' then Some v else zfind k r.
+Proof. reflexivity. Qed.
+
 Section Check.
   Variable c : cfg.
   Variable tried_bucket : Z -> Z.
@@ -47,7 +50,7 @@ Section Check.
       rewrite IH by (intros; apply H; right; auto). cbn [map fst rev]. rewrite <- app_assoc. reflexivity.
     - destruct (E2 eq_refl) as [L R].
       replace (a_ref a <? 0) with false by (symmetry; apply Z.ltb_ge; lia).
-      replace (a_ref a >? c_MAXREF c) with false by (symmetry; apply Z.gtb_ltb, Z.ltb_ge; lia).
+      replace (a_ref a >? c_MAXREF c) with false by (symmetry; rewrite Z.gtb_ltb; apply Z.ltb_ge; lia).
       replace (a_ref a =? 0) with false by (symmetry; apply Z.eqb_neq; lia). cbn [orb bind].
       rewrite E3, E4, Z.eqb_refl. cbn [negb]. rewrite (proj2 (Z.ltb_ge _ _) E5), (proj2 (Z.ltb_ge _ _) E6).
       rewrite IH by (intros; apply H; right; auto). reflexivity.
@@ -61,10 +64,10 @@ Section Check.
   Proof.
     induction l as [|[n a] r IH]; intros mn id ND; [reflexivity|].
     assert (ND1 : ~ In n (keys r)) by (inversion ND; auto). assert (ND2 : NoDup (keys r)) by (inversion ND; auto).
-    cbn [new_map]. rewrite IH by auto. unfold zfind at 3. cbn [mfind]. destruct (id =? n) eqn:E.
+    cbn [new_map]. rewrite IH by auto. rewrite zfind_cons. destruct (id =? n) eqn:E.
     - apply Z.eqb_eq in E. subst id. assert (zfind n r = None) as -> by (apply z_find_None; auto).
       destruct (a_tried a); auto. rewrite zfind_zset, Z.eqb_refl. auto.
-    - fold (@zfind ainfo). destruct (zfind id r) as [a0|]; [destruct (a_tried a0); auto|];
+    - destruct (zfind id r) as [a0|]; [destruct (a_tried a0); auto|];
         destruct (a_tried a); auto; rewrite zfind_zset; rewrite Z.eqb_sym, E; auto.
   Qed.
   Lemma new_map_len l : forall mn, NoDup (keys l) -> (forall n, In n (keys l) -> zfind n mn = None) ->
@@ -72,10 +75,10 @@ Section Check.
   Proof.
     induction l as [|[n a] r IH]; intros mn ND H; [rewrite mcount_nil; cbn [new_map]; lia|].
     assert (ND1 : ~ In n (keys r)) by (inversion ND; auto). assert (ND2 : NoDup (keys r)) by (inversion ND; auto).
-    cbn [new_map]. rewrite mcount_cons. cbn [snd]. destruct (a_tried a).
-    - rewrite IH; auto. { simpl. lia. } intros n0 I. apply H. right. auto.
-    - rewrite IH; auto.
-      + rewrite (z_len_set_new n (a_ref a) mn) by (apply H; left; auto). simpl. lia.
+    cbn [new_map]. rewrite mcount_cons. cbn [snd]. destruct (a_tried a); cbn [negb b2z].
+    - rewrite (IH mn ND2); [lia|]. intros n0 I. apply H. right. auto.
+    - rewrite (IH (zset n (a_ref a) mn) ND2).
+      + rewrite (z_len_set_new n (a_ref a) mn) by (apply H; left; auto). lia.
       + intros n0 I. rewrite zfind_zset. destruct (n =? n0) eqn:E; [apply Z.eqb_eq in E; subst; contradiction|]. apply H. right. auto.
   Qed.
   Lemma tried_ids_len l : zlen (tried_ids l) = mcount (fun e => a_tried (snd e)) l.
@@ -96,17 +99,15 @@ Section Check.
         { rewrite nc_get_add. destruct (network (a_key a) =? net) eqn:E.
           - apply Z.eqb_eq in E. subst net. rewrite !wrapu64_id by (unfold UINT64_MAX; lia). simpl. f_equal; lia.
           - destruct (nc_get lc net); simpl; f_equal; lia. }
-        rewrite IH; rewrite Q; cbn [fst snd]; [|destruct (network (a_key a) =? net); unfold zlen, b2z; lia | lia | destruct (network (a_key a) =? net); unfold b2z; lia].
-        rewrite mcount_nil. f_equal; try lia.
-        unfold b2z. destruct (network (a_key a) =? net); lia.
+        rewrite (IH _ net); rewrite ?Q; cbn [fst snd b2z]; [f_equal; lia | | |];
+          destruct (network (a_key a) =? net); cbn [b2z]; unfold zlen; lia.
       + assert (Q : nc_get (nc_add 1 0 (network (a_key a)) lc) net =
                     (fst (nc_get lc net) + b2z (network (a_key a) =? net), snd (nc_get lc net))).
         { rewrite nc_get_add. destruct (network (a_key a) =? net) eqn:E.
           - apply Z.eqb_eq in E. subst net. rewrite !wrapu64_id by (unfold UINT64_MAX; lia). simpl. f_equal; lia.
           - destruct (nc_get lc net); simpl; f_equal; lia. }
-        rewrite IH; rewrite Q; cbn [fst snd]; [|destruct (network (a_key a) =? net); unfold zlen, b2z; lia | destruct (network (a_key a) =? net); unfold b2z; lia | lia].
-        rewrite mcount_nil. f_equal; try lia.
-        unfold b2z. destruct (network (a_key a) =? net); lia.
+        rewrite (IH _ net); rewrite ?Q; cbn [fst snd b2z]; [f_equal; lia | | |];
+          destruct (network (a_key a) =? net); cbn [b2z]; unfold zlen; lia.
   Qed.
   Lemma nc_add_keys dn dt net lc : NoDup (keys lc) -> NoDup (keys (nc_add dn dt net lc)).
   Proof. intros H. unfold nc_add. apply z_NoDup_set; auto. Qed.
@@ -185,7 +186,7 @@ Section Check.
   Theorem check_addrman_zero s : Inv s -> s_idcount s <= IDLIM -> check_addrman c tried_bucket bucket_pos network s = 0.
   Proof.
     intros G LIM. pose proof G as (HA & HR & HC & HX). unfold check_addrman.
-    pose proof (mcount_partition (fun e : Z * ainfo => a_tried (snd e)) (s_info s)) as PART.
+    pose proof (mcount_partition (fun e : Z * ainfo => a_tried (snd e)) (s_info s)) as PART. cbv beta in PART.
     assert (EN : s_nnew s = mcount (fun e : Z * ainfo => negb (a_tried (snd e))) (s_info s)).
     { rewrite (C_new _ _ _ HC). apply z_count_ext; [|apply (S_nd_info _ _ _ _ _ HA)]. intros k v _. unfold is_new. simpl. rewrite andb_true_r. auto. }
     assert (ET : s_ntried s = mcount (fun e : Z * ainfo => a_tried (snd e)) (s_info s)) by apply (C_tried _ _ _ HC).
@@ -214,7 +215,7 @@ Section Check.
           pose proof (HF sl id (or_introl eq_refl)) as F1. pose proof (HF sl' id (or_intror I)) as F2.
           destruct (S_tried1 _ _ _ _ _ HA _ _ F1) as (a1 & A1 & _ & E1). destruct (S_tried1 _ _ _ _ _ HA _ _ F2) as (a2 & A2 & _ & E2).
           rewrite A1 in A2. injection A2 as <-. assert (sl = sl') by congruence. subst sl'.
-          inversion ND; subst. apply H1. apply in_map_iff. exists (sl, id). auto.
+          assert (NI : ~ In sl (keys r)) by (inversion ND; auto). apply NI. apply in_map_iff. exists (sl, id). split; [reflexivity | rewrite E1; exact I].
         - apply IH; [inversion ND; auto|]. intros sl0 id0 I. apply HF. right. auto. }
       apply INJ; [apply (S_nd_tried _ _ _ _ _ HA)|]. intros sl id I. apply s_In_find; auto. apply (S_nd_tried _ _ _ _ _ HA). }
     destruct (check_tried_ok s (s_tried s) (rev (tried_ids (s_info s))) HA) as (S' & CT & MEM); auto.
@@ -224,7 +225,7 @@ Section Check.
     rewrite CT.
     assert (S'nil : S' = []).
     { destruct S' as [|x r]; auto. exfalso. destruct (proj1 (MEM x) (or_introl eq_refl)) as [I N]. apply N.
-      apply in_rev in I. rewrite rev_involutive in I. unfold tried_ids in I. apply in_map_iff in I. destruct I as ([n a] & E & I). simpl in E. subst n.
+      apply in_rev in I. rewrite ?rev_involutive in I. unfold tried_ids in I. apply in_map_iff in I. destruct I as ([n a] & E & I). simpl in E. subst n.
       apply filter_In in I. destruct I as [I T]. simpl in T. assert (F : zfind x (s_info s) = Some a) by (apply z_In_find; auto; apply (S_nd_info _ _ _ _ _ HA)).
       pose proof (S_tried2 _ _ _ _ _ HA _ _ F T) as F2. apply s_find_In in F2. apply in_map_iff. exists (tslot (a_key a), x). auto. }
     subst S'.
@@ -260,8 +261,7 @@ Section Check.
       replace (zlen (s_netcnt s)) with (zlen (keys (s_netcnt s))) by (unfold zlen, keys; rewrite map_length; auto).
       unfold zlen. apply inj_le. apply NoDup_incl_length; auto. }
     replace (zlen (s_netcnt s) <? zlen (loc_map (s_info s) [])) with false by (symmetry; apply Z.ltb_ge; lia).
-    assert (FA : forallb (fun e : Z * (Z * Z) => let '(net, (n, t)) := e in
-                   let lc := nc_get (loc_map (s_info s) []) net in (fst lc =? n) && (snd lc =? t)) (s_netcnt s) = true).
+    match goal with |- context [forallb ?f (s_netcnt s)] => assert (FA : forallb f (s_netcnt s) = true) end.
     { apply forallb_forall. intros [net [n t]] I. rewrite LG. apply z_In_find in I; [|apply (C_nd _ _ _ HC)].
       unfold nc_get. rewrite I. simpl. rewrite !Z.eqb_refl. reflexivity. }
     rewrite FA. reflexivity.
